@@ -366,7 +366,23 @@ pub fn run_line(line: &str) -> String {
         ("name2raw", 3) => {
             let n = match unhex(w[1]) { Some(p) => p, None => return "bad-hex".into() };
             let z = if w[2] == "." { None } else { unhex(w[2]) };
-            res_bytes(guard(|| gen::raw_name_from_str(&n, z.as_deref())))
+            let first = guard(|| gen::raw_name_from_str(&n, z.as_deref()));
+            let rt = match &first {
+                Ok(Ok(raw)) => {
+                    // give a record that name and read it back
+                    let pk = unhex("12348180000100010000000001710000010001036f6c64076578616d706c650000010001000000050004c0000201").unwrap();
+                    match guard(|| {
+                        let mut pp = DNSSector::new(pk).unwrap().parse().unwrap();
+                        let mut it = pp.into_iter_answer().unwrap();
+                        match it.set_raw_name(raw) {
+                            Ok(()) => format!("{}", hex(&it.name())),
+                            Err(e) => format!("err:{}", err_kind(&e)),
+                        }
+                    }) { Ok(s) => format!(" rt={}", s), Err(()) => " rt=panic".to_string() }
+                }
+                _ => String::new(),
+            };
+            format!("{}{}", res_bytes(first), rt)
         }
         ("iter", 2) => with_parsed(w[1], |pp| iter_dump(pp)),
         ("summary", 2) => with_parsed(w[1], |pp| summary_dump(pp)),
